@@ -87,7 +87,7 @@ func exec(e *lp.Exec) {
 		// after an error the parser must stay silent if fed again (engine closes; parser level check)
 		// (the engine's driver closes the parser on error: model that glue, then feed again)
 		if finalErr != 0 {
-			s.P.CloseAndClean(errors.New("parse error"))
+			s.P.CloseAndClean(errors.New("parse error")) // idempotent: already closed when the error was returned
 			s.R.Evs, s.R.Msgs = nil, nil
 			err := s.P.Parse([]byte("GET / HTTP/1.1\r\n\r\n"))
 			if err == nil || len(s.R.Evs) > 0 || len(s.R.Msgs) > 0 {
@@ -120,10 +120,15 @@ func exec(e *lp.Exec) {
 		case "D":
 			seg := lp.Unhex(f[1])
 			if dead {
-				// not fed to the segmented parser any more, but part of the byte stream the one-piece run gets
+				// the engine glue has closed the parser (CloseAndClean on the first error); the transport may still
+				// deliver data: every further Parse must return net.ErrClosed without any callback
 				segs = append(segs, seg)
-				e.P("> %s badurl= badproto=", line)
-				e.P("dead")
+				r := s.Feed(seg)
+				e.P("> %s badurl= badproto= okproto=", strings.Join(f[:2], " "))
+				if r.Evs != "" || r.Msgs != "" || r.Errc != 1 {
+					e.Oracle("c08-after-error", "Parse after the error and CloseAndClean: err=%d events [%s] msgs=%s", r.Errc, r.Evs, r.Msgs)
+				}
+				e.P("R err=%d [%s] msgs=%s", r.Errc, r.Evs, r.Msgs)
 				continue
 			}
 			segs = append(segs, seg)
@@ -180,6 +185,8 @@ func exec(e *lp.Exec) {
 				fmt.Fprintf(&key, "E%d", r.Errc)
 				e.Count("error_kinds", strconv.Itoa(r.Errc))
 				e.P("R err=%d [%s] msgs=%s", r.Errc, r.Evs, r.Msgs)
+				// what every reader of nbhttp/engine.go does on a parse error
+				s.P.CloseAndClean(r.Err)
 				continue
 			}
 			cl := s.P.VerifCacheLen()
@@ -193,7 +200,7 @@ func exec(e *lp.Exec) {
 				}
 			}
 			e.Count("parse_calls", "ok")
-			e.P("R ok cache=%d st=%d [%s] msgs=%s", cl, s.P.VerifState(), r.Evs, r.Msgs)
+			e.P("R ok cache=%d:%x st=%d held=%d [%s] msgs=%s", cl, lp.Fnv(s.P.VerifCache()), s.P.VerifState(), s.R.Held, r.Evs, r.Msgs)
 		default:
 			e.P("> %s", line)
 			e.P("bad-op")
